@@ -24,7 +24,59 @@ func itemBig(v any) *big.Int {
 	return nil
 }
 
+// malformedDigits: for one base the strings whose digits are not all below the base -
+// the first invalid digit (value == base), the next one, the largest digit of the
+// table, each alone, after and before a valid digit - plus a character outside the
+// table, the empty string and a blank.
+func malformedDigits(base int) []string {
+	var out []string
+	for _, v := range []int{base, base + 1, 63} {
+		if v >= base && v < 64 {
+			d := string(radixDigits[v])
+			out = append(out, d, "1"+d, d+"0", "0"+d+"1")
+		}
+	}
+	return append(out, "!", "1!", "", " ", "1 ", "-1")
+}
+
+func checkRadixMalformed(e *env) {
+	var items []any
+	for b := 2; b <= 64; b++ {
+		for _, t := range malformedDigits(b) {
+			items = append(items, map[string]any{"b": b, "t": t})
+		}
+	}
+	e.r.Extra("radix_malformed_inputs", len(items))
+	e.each(items, 64, func(items []any) { checkRadixMalformedItems(e, items) })
+}
+
+func checkRadixMalformedItems(e *env, items []any) {
+	{
+		outs := e.batch("radix-malformed", `. as $it | T($it.t | from_radix($it.b))`, items)
+		for i, o := range outs {
+			if o == nil {
+				continue
+			}
+			m := itemMap(items[i])
+			base, t := itemInt(m["b"]), itemStr(m["t"])
+			if f, ok := m["b"].(float64); ok {
+				base = int(f)
+			}
+			e.r.Eval(1)
+			if _, err := refFromRadix(t, base); err == nil {
+				continue // the reference accepts it: not malformed
+			}
+			e.r.Nontrivial(fmt.Sprintf("radix-malformed:%d:%s", base, t))
+			r := getRes(o)
+			if r.ok {
+				e.violate("malformed:from_radix:digit-not-below-base-accepted", fmt.Sprintf("%q | from_radix(%d) = %s, expected an error (the reference rejects it)", t, base, r), "radix-malformed", items[i])
+			}
+		}
+	}
+}
+
 func enumRadix(e *env) {
+	checkRadixMalformed(e)
 	var items []any
 	for _, n := range radixInts() {
 		items = append(items, bigItem(n))
@@ -34,6 +86,10 @@ func enumRadix(e *env) {
 }
 
 func checkRadix(e *env, fn string, items []any) {
+	if fn == "radix-malformed" {
+		checkRadixMalformedItems(e, items)
+		return
+	}
 	inputs := make([]any, len(items))
 	for i, it := range items {
 		n := itemBig(it)
